@@ -65,7 +65,9 @@ func lensImage(s lensSpec) *bt.Image {
 	w1 := bt.Table{Name: "w1", NCols: 4, WithoutRowid: true, PKCols: 1, Tree: fmtb.TreeOpts{LeafCells: 1, Fanout: 3}}
 	w2 := bt.Table{Name: "w2", NCols: 4, WithoutRowid: true, PKCols: 1, Tree: fmtb.TreeOpts{LeafCells: 1, Fanout: 3}}
 	// w2 gets one small entry in front so that leaf/interior positions alternate the other way
-	w2.Rows = append(w2.Rows, bt.Row{Fields: fmtb.Values(val.Blob(nil))})
+	// (an integer: it sorts before every blob and equals none of them - the
+	// 2-byte payload of the enumeration is the empty blob)
+	w2.Rows = append(w2.Rows, bt.Row{Fields: fmtb.Values(val.Int(-5))})
 	for _, l := range s.Lens {
 		fs := fieldsFor(l)
 		if fs == nil {
@@ -166,7 +168,9 @@ func lensBatch(r *vt.Run, t vt.TB, s lensSpec) {
 		report(r, t, s, built, problem, sig)
 		return
 	}
-	if vt.Sampled(s, 6) {
+	if vt.Sampled(s, 6) || s.Lens[0] <= 8 {
+		// (the batch with the shortest payloads always: its image once held a
+		// duplicate key nobody saw because this step was only sampled)
 		diff, err := bt.SQLiteAgrees(env.O, env.Dir, built)
 		if err != nil {
 			r.Harness(t, "cross validation: %v", err)
